@@ -4,28 +4,34 @@
 (* S3 service and the user:                                                *)
 (*   manager._submit_transfer, tasks.SubmissionTask._main, tasks.Task      *)
 (*   .__call__, futures.TransferCoordinator (set_result / set_exception /  *)
-(*   cancel / announce_done), futures.BoundedExecutor (request stage with  *)
-(*   R worker threads and a queue semaphore of RQ slots), and the          *)
-(*   multipart upload/copy shape of upload.py / copies.py:                 *)
+(*   cancel / announce_done with its two callback locks),                  *)
+(*   futures.BoundedExecutor (request stage with R worker threads and a    *)
+(*   queue semaphore of RQ slots), and the multipart upload shape of       *)
+(*   upload.py:                                                            *)
 (*       Create -> Part 1..P (need the id) -> Complete (needs all, final)  *)
-(*   or, for P = 0, a single final request (put / copy / delete).          *)
+(*   or, for P = 0, a single final request (put / delete).                 *)
 (*                                                                         *)
-(* One action per critical section / blocking point of the code.  Every    *)
-(* environment-visible step also produces the event the harness records    *)
-(* from the real code and applies it to the observable state `o` of        *)
-(* Obs.tla, so the clauses of Props.tla are invariants of this model.      *)
+(* The specification is written to be bound to the code: one action per    *)
+(* critical section / blocking point / logged event of the implementation  *)
+(* (the name of the event the harness records at that point is given in    *)
+(* brackets).  trace/Pipeline_Trace.tla requires every recorded execution  *)
+(* of the real TransferManager to be a behaviour of this module.  Every    *)
+(* environment-visible step also applies the event to the observable state *)
+(* `o` of Obs.tla, so the clauses of Props.tla are invariants here.        *)
 (*                                                                         *)
 (* Faults: any S3 call may fail before or after its effect (budget         *)
-(* MaxFaults); on_queued may raise.  The user may cancel at any time.      *)
+(* MaxFaults); on_queued may raise.  The user may cancel at any time after *)
+(* the call returned.                                                      *)
 (***************************************************************************)
 EXTENDS Props
 
 CONSTANTS P,            \* number of parts (0 = single request transfer)
           R,            \* max_request_concurrency
           RQ,           \* max_request_queue_size
-          MaxFaults, UserMayCancel
+          MaxFaults, UserMayCancel,
+          Kind          \* "upload" | "delete"  (delete: P = 0)
 
-Workers == {"request-w" \o ToString(i) : i \in 1..R}
+Workers == {"request-w" \o ToString(i) : i \in 0..(R - 1)}
 Create == 100
 Final == 200
 PartT(i) == i
@@ -37,38 +43,52 @@ Deps(k) == IF P = 0 THEN {}
 \* order in which the submission task submits them
 SubOrder == IF P = 0 THEN <<Final>>
             ELSE <<Create>> \o [i \in 1..P |-> PartT(i)] \o <<Final>>
-OpOf(k) == IF P = 0 THEN "PutObject"
+OpOf(k) == IF P = 0 THEN (IF Kind = "delete" THEN "DeleteObject" ELSE "PutObject")
            ELSE IF k = Create THEN "CreateMultipartUpload"
            ELSE IF k = Final THEN "CompleteMultipartUpload" ELSE "UploadPart"
+\* class of the task object (as logged by the executor)
+ClassOf(k) == IF P = 0 THEN (IF Kind = "delete" THEN "DeleteObjectTask" ELSE "PutObjectTask")
+              ELSE IF k = Create THEN "CreateMultipartUploadTask"
+              ELSE IF k = Final THEN "CompleteMultipartUploadTask" ELSE "UploadPartTask"
 Size == IF P = 0 THEN 1 ELSE P
 MetaC == [ cfg |-> [R |-> R, S |-> 1, RQ |-> RQ, SQ |-> 1000, IOQ |-> 1000, io_chunk |-> 1,
                     attempts |-> 3, up_chunks |-> 10, down_chunks |-> 10, chunk |-> 1,
                     threshold |-> IF P = 0 THEN 2 ELSE 1],
-           xs |-> << [kind |-> "upload", size |-> Size, dstk |-> "none", srck |-> "path",
+           xs |-> << [kind |-> Kind, size |-> Size, dstk |-> "none", srck |-> "path",
                       hasOld |-> FALSE, nsubs |-> 1, provide |-> FALSE, faultFree |-> (MaxFaults = 0),
                       override |-> FALSE, shortsrc |-> FALSE] >> ]
 
 VARIABLES
-    status, exc, event,        \* coordinator
-    cleanup,                   \* "none" | "registered" | "ran"
-    task,                      \* [k -> [st, res]] st: unsub|queued|running|done, res: none|ok|exc
+    status, exc, event,        \* coordinator: _status, _exception, _done_event
+    cleanup,                   \* failure cleanups: "none" | "registered" | "ran"
+    cllock, cblock,            \* holders of _failure_cleanups_lock / _done_callbacks_lock ("" = free)
+    cbrun,                     \* the done callbacks have been taken (list emptied)
+    task,                      \* [k -> [st, res]] st: unsub|queued|running|ended|done
     rq,                        \* request executor FIFO
     rsem,                      \* free slots of the request queue semaphore
     wpc, wcur, wchk, wtag,     \* per request worker: pc, task, clock of its done-check, fault tag
     spc, snext,                \* submission thread: pc, index into SubOrder
     upc, cpc,                  \* user / canceller program counters
-    ann,                       \* [thread -> announce sub-step] ("" = not announcing)
+    ann,                       \* [thread -> announce_done sub-step] ("" = not announcing)
     faults, seq, clk, uidKnown,
     o                          \* observable state (Obs.tla)
 
-vars == <<status, exc, event, cleanup, task, rq, rsem, wpc, wcur, wchk, wtag, spc, snext,
-          upc, cpc, ann, faults, seq, clk, uidKnown, o>>
+vars == <<status, exc, event, cleanup, cllock, cblock, cbrun, task, rq, rsem, wpc, wcur, wchk, wtag,
+          spc, snext, upc, cpc, ann, faults, seq, clk, uidKnown, o>>
+coord == <<status, exc>>
+locks == <<cllock, cblock, cbrun>>
+exec == <<task, rq, rsem>>
+wk == <<wpc, wcur, wchk, wtag>>
+sb == <<spc, snext>>
+us == <<upc, cpc>>
 
 Threads == Workers \cup {"sub", "user", "canceller"}
 IsDoneS(s) == s \in {"success", "failed", "cancelled"}
+InFlight == Cardinality({k \in Tasks : task[k].st \in {"queued", "running"}})
 
 Init ==
     /\ status = "not-started" /\ exc = "none" /\ event = FALSE /\ cleanup = "none"
+    /\ cllock = "" /\ cblock = "" /\ cbrun = FALSE
     /\ task = [k \in Tasks |-> [st |-> "unsub", res |-> "none"]]
     /\ rq = <<>> /\ rsem = RQ
     /\ wpc = [w \in Workers |-> "idle"] /\ wcur = [w \in Workers |-> 0]
@@ -81,14 +101,17 @@ Init ==
     /\ o = InitObs(MetaC)
 
 \* ---------------------------------------------------------------- events
-Emit(ev) == o' = Apply(o, ev) /\ clk' = clk + 1
-Emit2(e1, e2) == o' = Apply(Apply(o, e1), e2) /\ clk' = clk + 1
+\* (time is abstracted to what the properties compare: has the cancel been
+\*  linearized yet?  0 = before, 1 = the linearization itself, 2 = after)
+Now == IF cpc \in {"announce", "ret", "done"} THEN 2 ELSE 0
+Emit(ev) == o' = Apply(o, ev) /\ UNCHANGED clk
+Emit2(e1, e2) == o' = Apply(Apply(o, e1), e2) /\ UNCHANGED clk
 Quiet == UNCHANGED <<o, clk>>
 EvS3Begin(th, op, part) ==
     [e |-> "S3Begin", seq |-> seq + 1, x |-> 0, op |-> op,
      uid |-> IF op = "CreateMultipartUpload" \/ P = 0 THEN 0 ELSE 1, part |-> part, rs |-> -1,
      xfer |-> (op # "AbortMultipartUpload"), th |-> th, chk |-> IF th \in Workers THEN wchk[th] ELSE -1,
-     t |-> clk, user |-> FALSE]
+     t |-> Now, user |-> FALSE]
 PartsListed == [i \in 1..P |-> [n |-> i, s |-> i - 1, l |-> 1, etag |-> TRUE, crc |-> TRUE]]
 EvS3End(op, oc) ==
     [e |-> "S3End", seq |-> seq, x |-> 0, op |-> op,
@@ -96,57 +119,109 @@ EvS3End(op, oc) ==
      bs |-> 0, bl |-> IF op = "PutObject" THEN Size ELSE IF op = "UploadPart" THEN 1 ELSE -1,
      bsrc |-> IF op \in {"PutObject", "UploadPart"} THEN "own" ELSE "none",
      parts |-> IF op = "CompleteMultipartUpload" THEN PartsListed ELSE <<>>, user |-> FALSE]
+EvFault(tag) == [e |-> "Fault", x |-> 0, tag |-> tag, fatal |-> TRUE, user |-> FALSE]
+EvCb(ph, cb, flag, st, byUser) ==
+    IF ph = "b" THEN [e |-> "CbBegin", cb |-> cb, x |-> 0, sub |-> 1, n |-> 0, flag |-> flag,
+                      st |-> st, user |-> byUser]
+    ELSE [e |-> "CbEnd", cb |-> cb, x |-> 0, sub |-> 1, user |-> FALSE]
 
 \* ---------------------------------------------------------------- coordinator
-SetException(e) ==          \* set_exception without override
+\* set_exception(e) without override, under _lock          [SetExc]
+SetException(e) ==
     IF IsDoneS(status) THEN UNCHANGED <<status, exc>>
     ELSE status' = "failed" /\ exc' = e
 
-\* announce_done is run by `th` in steps: ann[th] =
-\*   "status" -> "abortB" -> "abortE" -> "event" -> "cbs" -> ""
-AnnStart(th) == ann' = [ann EXCEPT ![th] = "status"]
-AnnStatus(th) ==
-    /\ ann[th] = "status"
-    /\ ann' = [ann EXCEPT ![th] = IF status # "success" /\ cleanup = "registered" THEN "abortB" ELSE "event"]
-    /\ cleanup' = IF status # "success" /\ cleanup = "registered" THEN "ran" ELSE cleanup
+\* announce_done is run by thread th in steps: ann[th] =
+\*   "begin" -> "cl" -> ("abortB" -> "abortE" ->) "event" -> "cb" -> ("cbb" -> "cbe" ->) "end" -> ""
+Announcing(th) == ann[th] # ""
+\* [AnnounceBegin]
+AnnBegin(th) ==
+    /\ ann[th] = "begin"
+    /\ ann' = [ann EXCEPT ![th] = IF status # "success" THEN "cl" ELSE "event"]
     /\ Quiet
-    /\ UNCHANGED <<status, exc, event, task, rq, rsem, wpc, wcur, wchk, wtag, spc, snext, upc, cpc, faults, seq, uidKnown>>
+    /\ UNCHANGED <<coord, event, cleanup, locks, exec, wk, sb, us, faults, seq, uidKnown>>
+\* _run_failure_cleanups: take _failure_cleanups_lock, run the cleanups (the
+\* abort) while holding it, empty the list
+AnnCleanups(th) ==
+    /\ ann[th] = "cl" /\ cllock = ""
+    /\ IF cleanup = "registered"
+       THEN cleanup' = "ran" /\ cllock' = th /\ ann' = [ann EXCEPT ![th] = "abortB"]
+       ELSE UNCHANGED <<cleanup, cllock>> /\ ann' = [ann EXCEPT ![th] = "event"]
+    /\ Quiet
+    /\ UNCHANGED <<coord, event, cblock, cbrun, exec, wk, sb, us, faults, seq, uidKnown>>
+\* [S3Begin AbortMultipartUpload]
 AnnAbortBegin(th) ==
     /\ ann[th] = "abortB"
     /\ Emit(EvS3Begin(th, "AbortMultipartUpload", 0))
     /\ seq' = seq + 1
     /\ ann' = [ann EXCEPT ![th] = "abortE"]
-    /\ UNCHANGED <<status, exc, event, cleanup, task, rq, rsem, wpc, wcur, wchk, wtag, spc, snext, upc, cpc, faults, uidKnown>>
-AnnAbortEnd(th) ==
+    /\ UNCHANGED <<coord, event, cleanup, locks, exec, wk, sb, us, faults, uidKnown>>
+\* [S3End AbortMultipartUpload]: a failing abort is logged and swallowed
+AnnAbortEnd(th, oc) ==
     /\ ann[th] = "abortE"
-    /\ Emit(EvS3End("AbortMultipartUpload", "ok"))
+    /\ (oc # "ok") => faults < MaxFaults
+    /\ faults' = IF oc = "ok" THEN faults ELSE faults + 1
+    /\ IF oc = "ok" THEN Emit(EvS3End("AbortMultipartUpload", "ok"))
+       ELSE Emit2(EvFault("F" \o ToString(seq)), EvS3End("AbortMultipartUpload", oc))
+    /\ cllock' = ""
     /\ ann' = [ann EXCEPT ![th] = "event"]
-    /\ UNCHANGED <<status, exc, event, cleanup, task, rq, rsem, wpc, wcur, wchk, wtag, spc, snext, upc, cpc, faults, seq, uidKnown>>
+    /\ UNCHANGED <<coord, event, cleanup, cblock, cbrun, exec, wk, sb, us, seq, uidKnown>>
+\* _done_event.set()
 AnnEvent(th) ==
     /\ ann[th] = "event"
     /\ event' = TRUE
-    /\ ann' = [ann EXCEPT ![th] = "cbs"]
+    /\ ann' = [ann EXCEPT ![th] = "cb"]
     /\ Quiet
-    /\ UNCHANGED <<status, exc, cleanup, task, rq, rsem, wpc, wcur, wchk, wtag, spc, snext, upc, cpc, faults, seq, uidKnown>>
-\* done callbacks run once (the list is emptied under its lock)
-AnnCbs(th) ==
-    /\ ann[th] = "cbs"
-    /\ IF o.x[1].d[1] = 0
-       THEN Emit2([e |-> "CbBegin", cb |-> "done", x |-> 0, sub |-> 1, n |-> 0, flag |-> IsDoneS(status),
-                   st |-> IF status = "success" THEN "success" ELSE "error", user |-> (th \in {"user", "canceller"})],
-                  [e |-> "CbEnd", cb |-> "done", x |-> 0, sub |-> 1, user |-> FALSE])
-       ELSE Quiet
+    /\ UNCHANGED <<coord, cleanup, locks, exec, wk, sb, us, faults, seq, uidKnown>>
+\* _run_done_callbacks: take _done_callbacks_lock; the list is emptied by the
+\* first announcer
+AnnCbLock(th) ==
+    /\ ann[th] = "cb" /\ cblock = ""
+    /\ IF cbrun THEN ann' = [ann EXCEPT ![th] = "end"] /\ UNCHANGED <<cblock, cbrun>>
+       ELSE cbrun' = TRUE /\ cblock' = th /\ ann' = [ann EXCEPT ![th] = "cbb"]
+    /\ Quiet
+    /\ UNCHANGED <<coord, event, cleanup, cllock, exec, wk, sb, us, faults, seq, uidKnown>>
+\* [CbBegin done]
+AnnCbBegin(th) ==
+    /\ ann[th] = "cbb"
+    /\ Emit(EvCb("b", "done", IsDoneS(status), IF status = "success" THEN "success" ELSE "error",
+                 th \in {"user", "canceller"}))
+    /\ ann' = [ann EXCEPT ![th] = "cbe"]
+    /\ UNCHANGED <<coord, event, cleanup, locks, exec, wk, sb, us, faults, seq, uidKnown>>
+\* [CbEnd done]
+AnnCbEnd(th) ==
+    /\ ann[th] = "cbe"
+    /\ Emit(EvCb("e", "done", TRUE, "", FALSE))
+    /\ cblock' = ""
+    /\ ann' = [ann EXCEPT ![th] = "end"]
+    /\ UNCHANGED <<coord, event, cleanup, cllock, cbrun, exec, wk, sb, us, faults, seq, uidKnown>>
+\* [AnnounceEnd]
+AnnEnd(th) ==
+    /\ ann[th] = "end"
     /\ ann' = [ann EXCEPT ![th] = ""]
-    /\ UNCHANGED <<status, exc, event, cleanup, task, rq, rsem, wpc, wcur, wchk, wtag, spc, snext, upc, cpc, faults, seq, uidKnown>>
-Announcing(th) == ann[th] # ""
+    /\ Quiet
+    /\ UNCHANGED <<coord, event, cleanup, locks, exec, wk, sb, us, faults, seq, uidKnown>>
 
 \* ---------------------------------------------------------------- user
+\* [Call]
 UserCall ==
     /\ upc = "call"
-    /\ Emit2([e |-> "Call", x |-> 0, user |-> FALSE], [e |-> "Ret", x |-> 0, ok |-> TRUE, user |-> FALSE])
-    /\ upc' = "result" /\ spc' = "start"
-    /\ UNCHANGED <<status, exc, event, cleanup, task, rq, rsem, wpc, wcur, wtag, wchk, snext, cpc, ann, faults, seq, uidKnown>>
-\* result(): blocks until the done event is set
+    /\ Emit([e |-> "Call", x |-> 0, user |-> FALSE])
+    /\ upc' = "submit"
+    /\ UNCHANGED <<coord, event, cleanup, locks, exec, wk, sb, cpc, ann, faults, seq, uidKnown>>
+\* [ExecSubmit submission]: the submission task is handed to the submission executor
+UserSubmit ==
+    /\ upc = "submit"
+    /\ Emit([e |-> "ExecSubmit", stage |-> "submission", inflight |-> 1, user |-> FALSE])
+    /\ upc' = "ret" /\ spc' = "start"
+    /\ UNCHANGED <<coord, event, cleanup, locks, exec, wk, snext, cpc, ann, faults, seq, uidKnown>>
+\* [Ret]
+UserRet ==
+    /\ upc = "ret"
+    /\ Emit([e |-> "Ret", x |-> 0, ok |-> TRUE, user |-> FALSE])
+    /\ upc' = "result"
+    /\ UNCHANGED <<coord, event, cleanup, locks, exec, wk, sb, cpc, ann, faults, seq, uidKnown>>
+\* [ResultEnd] result(): blocks until the done event is set
 UserResult ==
     /\ upc = "result" /\ event
     /\ Emit([e |-> "ResultEnd", x |-> 0, oc |-> IF exc = "none" THEN "ok" ELSE "raise",
@@ -154,95 +229,127 @@ UserResult ==
              tag |-> IF exc = "cancel" THEN "" ELSE IF exc = "none" THEN "" ELSE exc,
              cls |-> IF exc = "cancel" THEN "CancelledError" ELSE "", msgok |-> TRUE, user |-> FALSE])
     /\ upc' = "shutdown"
-    /\ UNCHANGED <<status, exc, event, cleanup, task, rq, rsem, wpc, wcur, wchk, wtag, spc, snext, cpc, ann, faults, seq, uidKnown>>
-\* shutdown(): all workers idle and queues empty, every announcement over
+    /\ UNCHANGED <<coord, event, cleanup, locks, exec, wk, sb, cpc, ann, faults, seq, uidKnown>>
+\* [ShutdownEnd] shutdown(): every worker thread joined (idle, queues empty)
 UserShutdown ==
     /\ upc = "shutdown"
     /\ \A w \in Workers : wpc[w] = "idle"
-    /\ rq = <<>> /\ spc = "end" /\ \A t \in Threads : ~Announcing(t)
-    /\ cpc \in {"idle", "done"}
+    /\ rq = <<>> /\ spc = "end"
     /\ Emit2([e |-> "DoneFlip", x |-> 0, done |-> IsDoneS(status), user |-> FALSE],
              [e |-> "ShutdownEnd", user |-> FALSE])
     /\ upc' = "end"
-    /\ UNCHANGED <<status, exc, event, cleanup, task, rq, rsem, wpc, wcur, wchk, wtag, spc, snext, cpc, ann, faults, seq, uidKnown>>
+    /\ UNCHANGED <<coord, event, cleanup, locks, exec, wk, sb, cpc, ann, faults, seq, uidKnown>>
 
-\* future.cancel() from another user thread, any time after the call
-CancelStart ==
-    /\ UserMayCancel /\ cpc = "idle" /\ upc \in {"result"}
+\* future.cancel() from another user thread, any time after the call returned
+\* [CancelCall]
+UCancelCall ==
+    /\ UserMayCancel /\ cpc = "idle" /\ upc \in {"result", "shutdown", "end"}
+    /\ Emit([e |-> "CancelCall", how |-> "future", x |-> 0, user |-> FALSE])
+    /\ cpc' = "begin"
+    /\ UNCHANGED <<coord, event, cleanup, locks, exec, wk, sb, upc, ann, faults, seq, uidKnown>>
+\* [CancelBegin] TransferCoordinator.cancel entered
+CancelBegin ==
+    /\ cpc = "begin"
+    /\ Emit([e |-> "CancelCall", how |-> "future", x |-> 0, user |-> FALSE])
+    /\ cpc' = "lin"
+    /\ UNCHANGED <<coord, event, cleanup, locks, exec, wk, sb, upc, ann, faults, seq, uidKnown>>
+\* [CancelEnd] the critical section of cancel(): linearization point
+CancelLin ==
+    /\ cpc = "lin"
     /\ LET wasNS == status = "not-started" IN
        /\ IF IsDoneS(status) THEN UNCHANGED <<status, exc>>
           ELSE status' = "cancelled" /\ exc' = "cancel"
-       /\ Emit2([e |-> "CancelCall", how |-> "future", x |-> 0, user |-> FALSE],
-                [e |-> "CancelRet", how |-> "future", x |-> 0, ok |-> TRUE, t |-> clk, user |-> FALSE])
-       /\ cpc' = IF wasNS THEN "announce" ELSE "done"
-       /\ ann' = IF wasNS THEN [ann EXCEPT !["canceller"] = "status"] ELSE ann
-    /\ UNCHANGED <<event, cleanup, task, rq, rsem, wpc, wcur, wchk, wtag, spc, snext, upc, faults, seq, uidKnown>>
-CancelFinish ==
-    /\ cpc = "announce" /\ ~Announcing("canceller")
-    /\ cpc' = "done" /\ Quiet
-    /\ UNCHANGED <<status, exc, event, cleanup, task, rq, rsem, wpc, wcur, wchk, wtag, spc, snext, upc, ann, faults, seq, uidKnown>>
+       /\ Emit([e |-> "CancelRet", how |-> "future", x |-> 0, ok |-> TRUE, t |-> 1, user |-> FALSE])
+       /\ cpc' = IF wasNS THEN "announce" ELSE "ret"
+       /\ ann' = IF wasNS THEN [ann EXCEPT !["canceller"] = "begin"] ELSE ann
+    /\ UNCHANGED <<event, cleanup, locks, exec, wk, sb, upc, faults, seq, uidKnown>>
+\* [CancelRet] cancel() returned (after announcing, for a not-started transfer)
+UCancelRet ==
+    /\ cpc \in {"announce", "ret"} /\ ~Announcing("canceller")
+    /\ Emit([e |-> "CancelRet", how |-> "future", x |-> 0, ok |-> TRUE, t |-> 1, user |-> FALSE])
+    /\ cpc' = "done"
+    /\ UNCHANGED <<coord, event, cleanup, locks, exec, wk, sb, upc, ann, faults, seq, uidKnown>>
 
 \* ---------------------------------------------------------------- submission task
-\* Task.__call__ of the SubmissionTask: skip _main if the transfer is done
-SubStart ==
+\* [TaskBegin submission] the submission worker takes the task
+SubTake ==
     /\ spc = "start"
-    /\ spc' = IF IsDoneS(status) THEN "end" ELSE "queued"
+    /\ spc' = "check" /\ Quiet
+    /\ UNCHANGED <<coord, event, cleanup, locks, exec, wk, snext, us, ann, faults, seq, uidKnown>>
+\* Task.__call__: skip _main if the transfer is done
+SubCheck ==
+    /\ spc = "check"
+    /\ spc' = IF IsDoneS(status) THEN "tend" ELSE "queued"
     /\ Quiet
-    /\ UNCHANGED <<status, exc, event, cleanup, task, rq, rsem, wpc, wcur, wtag, wchk, snext, upc, cpc, ann, faults, seq, uidKnown>>
-\* set_status_to_queued: RuntimeError if done
+    /\ UNCHANGED <<coord, event, cleanup, locks, exec, wk, snext, us, ann, faults, seq, uidKnown>>
+\* [Status] set_status_to_queued: RuntimeError if done
 SubQueued ==
     /\ spc = "queued"
     /\ IF IsDoneS(status)
-       THEN spc' = "fail" /\ UNCHANGED status /\ Quiet
-       ELSE status' = "queued" /\ spc' = "onqueued"
-            /\ Emit([e |-> "Status", x |-> 0, st |-> "queued", user |-> FALSE])
-    /\ UNCHANGED <<exc, event, cleanup, task, rq, rsem, wpc, wcur, wtag, wchk, snext, upc, cpc, ann, faults, seq, uidKnown>>
-SubOnQueued(ok) ==
-    /\ spc = "onqueued"
-    /\ IF ok THEN /\ spc' = "running" /\ UNCHANGED <<faults, status, exc>>
-                  /\ Emit2([e |-> "CbBegin", cb |-> "queued", x |-> 0, sub |-> 1, n |-> 0, flag |-> TRUE, st |-> "", user |-> FALSE],
-                           [e |-> "CbEnd", cb |-> "queued", x |-> 0, sub |-> 1, user |-> FALSE])
+       THEN spc' = "fail" /\ UNCHANGED status
+       ELSE status' = "queued" /\ spc' = "onqb"
+    /\ Emit([e |-> "Status", x |-> 0, st |-> status', user |-> FALSE])
+    /\ UNCHANGED <<exc, event, cleanup, locks, exec, wk, snext, us, ann, faults, seq, uidKnown>>
+\* [CbBegin queued]
+SubOnQueuedBegin ==
+    /\ spc = "onqb"
+    /\ Emit(EvCb("b", "queued", TRUE, "", FALSE))
+    /\ spc' = "onqe"
+    /\ UNCHANGED <<coord, event, cleanup, locks, exec, wk, snext, us, ann, faults, seq, uidKnown>>
+\* [CbEnd queued] the callback returns, or raises (the exception goes to _main's handler)
+SubOnQueuedEnd(ok) ==
+    /\ spc = "onqe"
+    /\ IF ok THEN /\ spc' = "running" /\ UNCHANGED faults
+                  /\ Emit(EvCb("e", "queued", TRUE, "", FALSE))
        ELSE /\ faults < MaxFaults /\ faults' = faults + 1
-            /\ Emit2([e |-> "CbBegin", cb |-> "queued", x |-> 0, sub |-> 1, n |-> 0, flag |-> TRUE, st |-> "", user |-> FALSE],
-                     [e |-> "Fault", x |-> 0, tag |-> "CBQ", fatal |-> TRUE, user |-> FALSE])
-            /\ SetException("CBQ") /\ spc' = "failwait"
-    /\ UNCHANGED <<event, cleanup, task, rq, rsem, wpc, wcur, wtag, wchk, snext, upc, cpc, ann, seq, uidKnown>>
+            /\ Emit2(EvFault("CBQ"), EvCb("e", "queued", TRUE, "", FALSE))
+            /\ spc' = "failcbq"
+    /\ UNCHANGED <<coord, event, cleanup, locks, exec, wk, snext, us, ann, seq, uidKnown>>
+\* [Status] set_status_to_running
 SubRunning ==
     /\ spc = "running"
     /\ IF IsDoneS(status) THEN spc' = "fail" /\ UNCHANGED status
        ELSE status' = "running" /\ spc' = "submit"
-    /\ Quiet
-    /\ UNCHANGED <<exc, event, cleanup, task, rq, rsem, wpc, wcur, wtag, wchk, snext, upc, cpc, ann, faults, seq, uidKnown>>
-\* BoundedExecutor.submit: acquire a queue slot (blocks while none), enqueue
+    /\ Emit([e |-> "Status", x |-> 0, st |-> status', user |-> FALSE])
+    /\ UNCHANGED <<exc, event, cleanup, locks, exec, wk, snext, us, ann, faults, seq, uidKnown>>
+\* [ExecSubmit request] BoundedExecutor.submit: acquire a queue slot (blocks
+\* while none), enqueue
 SubSubmit ==
     /\ spc = "submit" /\ snext <= Len(SubOrder) /\ rsem > 0
     /\ rsem' = rsem - 1
     /\ rq' = Append(rq, SubOrder[snext])
     /\ task' = [task EXCEPT ![SubOrder[snext]].st = "queued"]
     /\ snext' = snext + 1
-    /\ Emit([e |-> "ExecSubmit", stage |-> "request", inflight |-> RQ - rsem + 1, user |-> FALSE])
-    /\ UNCHANGED <<status, exc, event, cleanup, wpc, wcur, wchk, wtag, spc, upc, cpc, ann, faults, seq, uidKnown>>
+    /\ Emit([e |-> "ExecSubmit", stage |-> "request", inflight |-> InFlight + 1, user |-> FALSE])
+    /\ UNCHANGED <<coord, event, cleanup, locks, wk, spc, us, ann, faults, seq, uidKnown>>
 SubEnd ==
     /\ spc = "submit" /\ snext > Len(SubOrder)
-    /\ spc' = "end" /\ Quiet
-    /\ UNCHANGED <<status, exc, event, cleanup, task, rq, rsem, wpc, wcur, wtag, wchk, snext, upc, cpc, ann, faults, seq, uidKnown>>
-\* exception path of _main: set_exception, wait for every submitted future,
-\* announce done
+    /\ spc' = "tend" /\ Quiet
+    /\ UNCHANGED <<coord, event, cleanup, locks, exec, wk, snext, us, ann, faults, seq, uidKnown>>
+\* [SetExc] exception path of _main: set_exception ...
 SubFail ==
-    /\ spc = "fail"
-    /\ SetException("RuntimeError") /\ spc' = "failwait" /\ Quiet
-    /\ UNCHANGED <<event, cleanup, task, rq, rsem, wpc, wcur, wtag, wchk, snext, upc, cpc, ann, faults, seq, uidKnown>>
+    /\ spc \in {"fail", "failcbq"}
+    /\ SetException(IF spc = "failcbq" THEN "CBQ" ELSE "RuntimeError")
+    /\ spc' = "failwait" /\ Quiet
+    /\ UNCHANGED <<event, cleanup, locks, exec, wk, snext, us, ann, faults, seq, uidKnown>>
+\* ... wait for every submitted future, then announce done
 SubFailWait ==
     /\ spc = "failwait"
     /\ \A k \in Tasks : task[k].st \in {"unsub", "done"}
-    /\ spc' = "failann" /\ AnnStart("sub") /\ Quiet
-    /\ UNCHANGED <<status, exc, event, cleanup, task, rq, rsem, wpc, wcur, wtag, wchk, snext, upc, cpc, faults, seq, uidKnown>>
+    /\ spc' = "failann" /\ ann' = [ann EXCEPT !["sub"] = "begin"] /\ Quiet
+    /\ UNCHANGED <<coord, event, cleanup, locks, exec, wk, snext, us, faults, seq, uidKnown>>
 SubFailDone ==
     /\ spc = "failann" /\ ~Announcing("sub")
+    /\ spc' = "tend" /\ Quiet
+    /\ UNCHANGED <<coord, event, cleanup, locks, exec, wk, snext, us, ann, faults, seq, uidKnown>>
+\* [TaskEnd submission]
+SubTaskEnd ==
+    /\ spc = "tend"
     /\ spc' = "end" /\ Quiet
-    /\ UNCHANGED <<status, exc, event, cleanup, task, rq, rsem, wpc, wcur, wtag, wchk, snext, upc, cpc, ann, faults, seq, uidKnown>>
+    /\ UNCHANGED <<coord, event, cleanup, locks, exec, wk, snext, us, ann, faults, seq, uidKnown>>
 
 \* ---------------------------------------------------------------- request workers (Task.__call__)
+\* [TaskBegin request]
 WTake(w) ==
     /\ wpc[w] = "idle" /\ rq # <<>>
     /\ rq' = Tail(rq)
@@ -250,25 +357,25 @@ WTake(w) ==
     /\ task' = [task EXCEPT ![Head(rq)].st = "running"]
     /\ wpc' = [wpc EXCEPT ![w] = "deps"]
     /\ Quiet
-    /\ UNCHANGED <<status, exc, event, cleanup, rsem, wchk, wtag, spc, snext, upc, cpc, ann, faults, seq, uidKnown>>
-\* _wait_on_dependent_futures, then gather their results (a failed
-\* dependency re-raises its exception) and test done()
+    /\ UNCHANGED <<coord, event, cleanup, locks, rsem, wchk, wtag, sb, us, ann, faults, seq, uidKnown>>
+\* _wait_on_dependent_futures, then test done()
 WDeps(w) ==
     /\ wpc[w] = "deps"
     /\ \A d \in Deps(wcur[w]) : task[d].st = "done"
     \* (Task.__call__ never raises: a failed dependency shows up as done())
     /\ wpc' = [wpc EXCEPT ![w] = IF IsDoneS(status) THEN "fin" ELSE "main"]
-    /\ wchk' = [wchk EXCEPT ![w] = clk]
-    /\ UNCHANGED o /\ clk' = clk + 1     \* the check is a step of its own on the clock
-    /\ UNCHANGED <<status, exc, event, cleanup, task, rq, rsem, wcur, wtag, spc, snext, upc, cpc, ann, faults, seq, uidKnown>>
+    /\ wchk' = [wchk EXCEPT ![w] = Now]
+    /\ Quiet
+    /\ UNCHANGED <<coord, event, cleanup, locks, exec, wcur, wtag, sb, us, ann, faults, seq, uidKnown>>
+\* [S3Begin]
 WMainBegin(w) ==
     /\ wpc[w] = "main"
     /\ LET k == wcur[w] IN
        Emit(EvS3Begin(w, OpOf(k), IF k \in 1..P THEN k ELSE 0))
     /\ seq' = seq + 1
     /\ wpc' = [wpc EXCEPT ![w] = "inflight"]
-    /\ UNCHANGED <<status, exc, event, cleanup, task, rq, rsem, wcur, wchk, wtag, spc, snext, upc, cpc, ann, faults, uidKnown>>
-\* the S3 call returns: ok, or fails before / after its effect
+    /\ UNCHANGED <<coord, event, cleanup, locks, exec, wcur, wchk, wtag, sb, us, ann, faults, uidKnown>>
+\* [S3End] the S3 call returns: ok, or fails before / after its effect
 WMainEnd(w, oc) ==
     /\ wpc[w] = "inflight"
     /\ LET k == wcur[w] IN
@@ -277,58 +384,99 @@ WMainEnd(w, oc) ==
        /\ IF oc = "ok"
           THEN /\ Emit(EvS3End(OpOf(k), "ok"))
                /\ wpc' = [wpc EXCEPT ![w] = "ok"]
-               \* CreateMultipartUploadTask registers the abort cleanup
-               /\ cleanup' = IF k = Create /\ P > 0 THEN "registered" ELSE cleanup
                /\ uidKnown' = (uidKnown \/ (k = Create /\ P > 0))
                /\ UNCHANGED wtag
-          ELSE /\ Emit2(EvS3End(OpOf(k), oc),
-                        [e |-> "Fault", x |-> 0, tag |-> "F" \o ToString(seq), fatal |-> TRUE, user |-> FALSE])
+          ELSE /\ Emit2(EvFault("F" \o ToString(seq)), EvS3End(OpOf(k), oc))
                /\ wpc' = [wpc EXCEPT ![w] = "exc"]
                /\ wtag' = [wtag EXCEPT ![w] = "F" \o ToString(seq)]
-               /\ UNCHANGED <<cleanup, uidKnown>>
-    /\ UNCHANGED <<status, exc, event, task, rq, rsem, wcur, wtag, wchk, spc, snext, upc, cpc, ann, seq>>
-\* _execute_main returned: the final task sets the result (unconditionally)
+               /\ UNCHANGED uidKnown
+    /\ UNCHANGED <<coord, event, cleanup, locks, exec, wcur, wchk, sb, us, ann, seq>>
+\* "upload reads abort promptly once the transfer has failed" (upload.py,
+\* InterruptReader): a task that reads a body re-raises the transfer's stored
+\* exception instead of sending / while sending its request
+HasBody(k) == (k \in 1..P) \/ (P = 0 /\ Kind = "upload")
+WInterrupt(w) ==
+    /\ wpc[w] = "main" /\ exc # "none" /\ HasBody(wcur[w])
+    /\ wpc' = [wpc EXCEPT ![w] = "exc"]
+    /\ wtag' = [wtag EXCEPT ![w] = exc]
+    /\ Quiet
+    /\ UNCHANGED <<coord, event, cleanup, locks, exec, wcur, wchk, sb, us, ann, faults, seq, uidKnown>>
+\* [S3End body-error]
+WMainInterrupted(w) ==
+    /\ wpc[w] = "inflight" /\ exc # "none" /\ HasBody(wcur[w])
+    /\ Emit(EvS3End(OpOf(wcur[w]), "body-error"))
+    /\ wpc' = [wpc EXCEPT ![w] = "exc"]
+    /\ wtag' = [wtag EXCEPT ![w] = exc]
+    /\ UNCHANGED <<coord, event, cleanup, locks, exec, wcur, wchk, sb, us, ann, faults, seq, uidKnown>>
+\* _main returned: CreateMultipartUploadTask registers the abort cleanup
+\* (add_failure_cleanup, under _failure_cleanups_lock); the final task sets
+\* the result (unconditionally)                      [SetResult, final task only]
 WOk(w) ==
     /\ wpc[w] = "ok"
+    /\ (wcur[w] = Create /\ P > 0) => cllock = ""
     /\ IF wcur[w] = Final
        THEN status' = "success" /\ exc' = "none"
        ELSE UNCHANGED <<status, exc>>
+    /\ cleanup' = IF wcur[w] = Create /\ P > 0 /\ cleanup = "none" THEN "registered" ELSE cleanup
     /\ task' = [task EXCEPT ![wcur[w]].res = "ok"]
     /\ wpc' = [wpc EXCEPT ![w] = "fin"] /\ Quiet
-    /\ UNCHANGED <<event, cleanup, rq, rsem, wcur, wchk, wtag, spc, snext, upc, cpc, ann, faults, seq, uidKnown>>
+    /\ UNCHANGED <<event, locks, rq, rsem, wcur, wchk, wtag, sb, us, ann, faults, seq, uidKnown>>
+\* [SetExc]
 WExc(w) ==
     /\ wpc[w] = "exc"
     /\ SetException(wtag[w])
     /\ task' = [task EXCEPT ![wcur[w]].res = "exc"]
     /\ wpc' = [wpc EXCEPT ![w] = "fin"] /\ Quiet
-    /\ UNCHANGED <<event, cleanup, rq, rsem, wcur, wchk, wtag, spc, snext, upc, cpc, ann, faults, seq, uidKnown>>
-\* finally: the final task announces done; then the executor future completes
-\* (dependents wake up) and the queue slot is released
+    /\ UNCHANGED <<event, cleanup, locks, rq, rsem, wcur, wchk, wtag, sb, us, ann, faults, seq, uidKnown>>
+\* finally: the final task announces done
 WFin(w) ==
     /\ wpc[w] = "fin"
     /\ IF wcur[w] = Final
-       THEN wpc' = [wpc EXCEPT ![w] = "announce"] /\ AnnStart(w) /\ UNCHANGED <<task, rsem>>
-       ELSE /\ wpc' = [wpc EXCEPT ![w] = "idle"] /\ UNCHANGED ann
-            /\ task' = [task EXCEPT ![wcur[w]].st = "done",
-                                    ![wcur[w]].res = IF @ = "none" THEN "skipped" ELSE @]
-            /\ rsem' = rsem + 1
+       THEN wpc' = [wpc EXCEPT ![w] = "announce"] /\ ann' = [ann EXCEPT ![w] = "begin"]
+       ELSE wpc' = [wpc EXCEPT ![w] = "tend"] /\ UNCHANGED ann
     /\ Quiet
-    /\ UNCHANGED <<status, exc, event, cleanup, rq, wcur, wchk, wtag, spc, snext, upc, cpc, faults, seq, uidKnown>>
+    /\ UNCHANGED <<coord, event, cleanup, locks, exec, wcur, wchk, wtag, sb, us, faults, seq, uidKnown>>
 WAnnounced(w) ==
     /\ wpc[w] = "announce" /\ ~Announcing(w)
-    /\ wpc' = [wpc EXCEPT ![w] = "idle"]
-    /\ task' = [task EXCEPT ![wcur[w]].st = "done", ![wcur[w]].res = IF @ = "none" THEN "skipped" ELSE @]
-    /\ rsem' = rsem + 1 /\ Quiet
-    /\ UNCHANGED <<status, exc, event, cleanup, rq, wcur, wchk, wtag, spc, snext, upc, cpc, ann, faults, seq, uidKnown>>
+    /\ wpc' = [wpc EXCEPT ![w] = "tend"] /\ Quiet
+    /\ UNCHANGED <<coord, event, cleanup, locks, exec, wcur, wchk, wtag, sb, us, ann, faults, seq, uidKnown>>
+\* [TaskEnd request] the task function returned (the executor counts it as completed)
+WTaskEnd(w) ==
+    /\ wpc[w] = "tend"
+    /\ task' = [task EXCEPT ![wcur[w]].st = "ended", ![wcur[w]].res = IF @ = "none" THEN "skipped" ELSE @]
+    /\ wpc' = [wpc EXCEPT ![w] = "finish"] /\ Quiet
+    /\ UNCHANGED <<coord, event, cleanup, locks, rq, rsem, wcur, wchk, wtag, sb, us, ann, faults, seq, uidKnown>>
+\* the executor future completes (dependents wake up) ...
+WFinish(w) ==
+    /\ wpc[w] = "finish"
+    /\ task' = [task EXCEPT ![wcur[w]].st = "done"]
+    /\ wpc' = [wpc EXCEPT ![w] = "release"] /\ Quiet
+    /\ UNCHANGED <<coord, event, cleanup, locks, rq, rsem, wcur, wchk, wtag, sb, us, ann, faults, seq, uidKnown>>
+\* ... and its done callback releases the queue slot
+WRelease(w) ==
+    /\ wpc[w] = "release"
+    /\ rsem' = rsem + 1
+    /\ wpc' = [wpc EXCEPT ![w] = "idle"] /\ Quiet
+    /\ UNCHANGED <<coord, event, cleanup, locks, task, rq, wcur, wchk, wtag, sb, us, ann, faults, seq, uidKnown>>
 
+AnnNext(th) ==
+    \/ AnnBegin(th) \/ AnnCleanups(th) \/ AnnAbortBegin(th)
+    \/ AnnAbortEnd(th, "ok") \/ AnnAbortEnd(th, "fault") \/ AnnAbortEnd(th, "fault-after")
+    \/ AnnEvent(th) \/ AnnCbLock(th) \/ AnnCbBegin(th) \/ AnnCbEnd(th) \/ AnnEnd(th)
+UserNext == UserCall \/ UserSubmit \/ UserRet \/ UserResult \/ UserShutdown
+CancelNext == UCancelCall \/ CancelBegin \/ CancelLin \/ UCancelRet
+SubNext ==
+    \/ SubTake \/ SubCheck \/ SubQueued \/ SubOnQueuedBegin \/ SubOnQueuedEnd(TRUE) \/ SubOnQueuedEnd(FALSE)
+    \/ SubRunning \/ SubSubmit \/ SubEnd \/ SubFail \/ SubFailWait \/ SubFailDone \/ SubTaskEnd
+WNext(w) ==
+    \/ WTake(w) \/ WDeps(w) \/ WMainBegin(w)
+    \/ WMainEnd(w, "ok") \/ WMainEnd(w, "fault") \/ WMainEnd(w, "fault-after")
+    \/ WInterrupt(w) \/ WMainInterrupted(w)
+    \/ WOk(w) \/ WExc(w) \/ WFin(w) \/ WAnnounced(w) \/ WTaskEnd(w) \/ WFinish(w) \/ WRelease(w)
 Next ==
-    \/ UserCall \/ UserResult \/ UserShutdown \/ CancelStart \/ CancelFinish
-    \/ SubStart \/ SubQueued \/ SubOnQueued(TRUE) \/ SubOnQueued(FALSE) \/ SubRunning
-    \/ SubSubmit \/ SubEnd \/ SubFail \/ SubFailWait \/ SubFailDone
-    \/ \E w \in Workers : WTake(w) \/ WDeps(w) \/ WMainBegin(w)
-                          \/ WMainEnd(w, "ok") \/ WMainEnd(w, "fault") \/ WMainEnd(w, "fault-after")
-                          \/ WOk(w) \/ WExc(w) \/ WFin(w) \/ WAnnounced(w)
-    \/ \E th \in Threads : AnnStatus(th) \/ AnnAbortBegin(th) \/ AnnAbortEnd(th) \/ AnnEvent(th) \/ AnnCbs(th)
+    \/ UserNext \/ CancelNext \/ SubNext
+    \/ \E w \in Workers : WNext(w)
+    \/ \E th \in Threads : AnnNext(th)
 
 Spec == Init /\ [][Next]_vars
 FairSpec == Spec /\ WF_vars(Next)
@@ -344,13 +492,21 @@ PipelineClauses ==
       "C08_DoneAtMostOnce", "C08_DoneAfterFinalAndQuiet", "C08_OutcomeFinalAtDone",
       "C10_RequestsInFlightLeR", "C10_StageOccupancy", "C10_RequestThreadsLeR",
       "C17_DoneNeverReverts", "C18_NothingAfterShutdownReturns", "C18_AllDoneAtShutdownReturn" }
+ASSUME PipelineClauses \subseteq Clauses      \* (Holds is TRUE for an unknown name)
 AllClausesHold == \A c \in PipelineClauses : Holds(c, o)
 FailingClauses == {c \in PipelineClauses : ~Holds(c, o)}
 ClausesOK == FailingClauses = {}
 
 \* the request-queue semaphore is conserved
 C12_QueueSlotsConserved ==
-    rsem = RQ - Cardinality({k \in Tasks : task[k].st \in {"queued", "running"}})
+    rsem = RQ - Cardinality({k \in Tasks : task[k].st \in {"queued", "running", "ended"}})
+                - Cardinality({w \in Workers : wpc[w] = "release"})
+\* the abort cleanup is never registered after the cleanups ran (orphaned upload)
+C05_CleanupRegisteredBeforeRun == ~(cleanup = "ran" /\ \E w \in Workers : wpc[w] = "ok" /\ wcur[w] = Create)
+\* the two callback locks are held by an announcing thread only
+C17_LocksHeldByAnnouncers ==
+    /\ (cllock # "") => ann[cllock] \in {"abortB", "abortE"}
+    /\ (cblock # "") => ann[cblock] \in {"cbb", "cbe"}
 \* termination (C04): the user's result() and shutdown() return
 C04_ResultReturns == (upc = "result") ~> (upc # "result")
 C04_ShutdownReturns == (upc = "shutdown") ~> (upc = "end")
